@@ -40,6 +40,7 @@ TIME = {'quick': 70, 'thorough': 540}
 MIN_NONTRIVIAL = {'quick': 4000, 'thorough': 40000}
 REQUIRED = ('static_attributes_compared', 'variant_codes_checked',
             'fixed_limit_offers', 'no_limit_offers', 'pot_limit_offers',
+            'pot_limit_offers_raked_pot',
             'rounds_capped_at_four', 'hole_facings_checked',
             'split_low_pushed', 'split_no_low', 'variants_played')
 
@@ -319,6 +320,8 @@ class VariantMonitor(Monitor):
         else:
             ctx.counters['pot_limit_offers'] += 1
             collected = sum(s.starting_stacks) - sum(s.stacks) - sum(s.bets)
+            if ctx.cfg['rake'] and collected:
+                ctx.counters['pot_limit_offers_raked_pot'] += 1
             pot = collected + sum(s.bets)
             exp = min(total, max(lo, 2 * max(s.bets) - s.bets[i] + pot))
             if hi != exp:
@@ -415,7 +418,7 @@ def make_monitors():
 def gen_kwargs(rng):
     return dict(
         games=gen.ALL_GAMES + gen.HILO_GAMES, customs=(), p_custom=0,
-        chip_types=('int',), max_boards=2, rake_ok=False, strict_p=1.0,
+        chip_types=('int',), max_boards=2, rake_ok=True, strict_p=1.0,
         auto_styles=('typical', 'all', 'any'),
         hostile_chips=rng.random() < 0.5,
     )
